@@ -1,5 +1,7 @@
 import QP.Model.PT
 import QP.Proofs.PTTop
+import QP.Proofs.PTReverse
+import QP.Proofs.PTTopW
 import Mathlib.Tactic.Linarith
 /-!
 # C02 — measurement windows of a program are the declared windows in absolute time
@@ -7,7 +9,9 @@ import Mathlib.Tactic.Linarith
 Full statement (DESIGN 4/C02): `createProgram … = .ok (some prog) → prog.windows ~ (denoteTop …).windows`
 (permutation) for every template, and every window declared inside its node lies inside `[0, duration]`.
 
-Proved here: `windows_correct_partial` for the stage-1 constructor subset (see `QP.Props.C01`), and the
+Proved here: `windows_correct_partial` for the stage-1 constructor subset (see `QP.Props.C01`),
+`windows_correct_reversal_partial` for that subset extended by time reversal, `reverse_mirrors_windows` for
+`Loop.reverse_inplace` on every program tree, and the
 "inside" property as preservation theorems on the denotation: sequencing, repetition, own windows of a node
 and time reversal keep windows inside the pulse.  Windows of table / point / multi-channel / arithmetic atoms,
 parallel channels, scalar arithmetic, time reversal (program side: `Loop.reverse_inplace`, PF-03 repaired) and
@@ -24,6 +28,20 @@ theorem windows_correct_partial {pt : PT} (hs : Stage1 pt) (params : List (Strin
     (hden : denoteTop pt params mm cm = .ok P) (hpos : prog.allPos) :
     prog.windows.Perm P.windows :=
   (createProgram_rel hs params mm cm prog P hprog hden hpos).2.2.1
+
+/-- **windows incl. time reversal (partial)**: for the stage-1 subset extended by `TimeReversalPT` (`Stage1R`),
+without any positivity assumption: the program's windows are the denoted windows — inside a time reversed part
+mirrored about that part's duration —, and if no program is produced nothing is denoted either. -/
+theorem windows_correct_reversal_partial {pt : PT} (hs : Stage1R pt) (params : List (String × Rat))
+    (mm : Option (List (MName × Option MName))) (cm : List (Chan × Option Chan)) (prog? : Option Loop) (P : Pulse)
+    (hprog : createProgram pt params mm cm [] = .ok prog?) (hden : denoteTop pt params mm cm = .ok P) :
+    match prog? with
+    | some prog => prog.windows.Perm P.windows
+    | none => P.windows = [] := by
+  have := createProgram_relW hs params mm cm prog? P hprog hden
+  cases prog? with
+  | some prog => exact this.2
+  | none => exact this.2
 
 /-- all windows of a pulse lie inside `[0, duration]` -/
 def Inside (P : Pulse) : Prop := ∀ w ∈ P.windows, 0 ≤ w.2.1 ∧ w.2.1 + w.2.2 ≤ P.dur
@@ -96,6 +114,15 @@ theorem reversed_reversed (D : Rat) (w : Window) :
   obtain ⟨n, b, l⟩ := w
   simp only [Prod.mk.injEq, true_and, and_true]
   ring
+
+/-- **program side of time reversal** (`Loop.reverse_inplace`, PF-03 repaired): for *every* program tree the
+windows of the reversed program are the windows of the original, each mirrored about the program's duration —
+repetitions, nesting and windows stored on repeated loops included. -/
+theorem reverse_mirrors_windows (l : Loop) :
+    l.reverseInplace.windows.Perm (l.windows.map (mirrorW l.duration)) := reverse_windows l
+
+/-- … and the reversed program lasts as long as the original -/
+theorem reverse_keeps_duration (l : Loop) : l.reverseInplace.duration = l.duration := reverse_duration l
 
 /-! ## Non-vacuity -/
 
